@@ -24,6 +24,14 @@ fn p(w: i64) -> MOp {
 
 /// A snippet with net stack effect +1 (pushes one result word).
 pub fn snippet_plus1() -> BoxedStrategy<Vec<MOp>> {
+    snippet_plus1_in(false)
+}
+
+/// `child = true`: only snippets that do not address pre-allocated own memory (a compute child starts
+/// with an empty memory).
+pub fn snippet_plus1_in(child: bool) -> BoxedStrategy<Vec<MOp>> {
+    // arms that need pre-allocated memory degrade to a plain tag inside compute children
+    let m = move |v: Vec<MOp>| if child { vec![p(v.len() as i64)] } else { v };
     let safe = || prop_oneof![3 => -50i64..50, 1 => boundary_word(), 1 => word()];
     let addr = || COUNTER_CELLS..MEM_BASE;
     prop_oneof![
@@ -101,8 +109,9 @@ pub fn snippet_plus1() -> BoxedStrategy<Vec<MOp>> {
             }
         }),
         // memory
-        3 => (addr(), safe()).prop_map(|(a, v)| vec![p(v), p(a), STO, p(a), LOD]),
-        2 => (addr(), proptest::collection::vec(safe(), 1..4)).prop_map(|(a, xs)| {
+        3 => (addr(), safe()).prop_map(|(a, v)| vec![p(v), p(a), STO, p(a), LOD]).prop_map(m),
+        2 => (addr(), proptest::collection::vec(safe(), 1..4)).prop_map(move |(a, xs)| {
+            if child { return vec![p(xs.len() as i64)]; }
             let a = a.min(MEM_BASE - xs.len() as i64);
             let n = xs.len() as i64;
             let mut v: Vec<MOp> = xs.iter().map(|w| p(*w)).collect();
@@ -126,7 +135,8 @@ pub fn snippet_plus1() -> BoxedStrategy<Vec<MOp>> {
             v
         }),
         // state reads into the reserved region (values are small in the generated states)
-        2 => (0usize..4, proptest::collection::vec(-2i64..3, 0..3), 0i64..3).prop_map(|(k, key, count)| {
+        2 => (0usize..4, proptest::collection::vec(-2i64..3, 0..3), 0i64..3).prop_map(move |(k, key, count)| {
+            if child { return vec![p(count)]; }
             let op = [KRNG, PKRNG, KREX, PKREX][k];
             let mut v = Vec::new();
             if matches!(op, KREX | PKREX) {
@@ -158,6 +168,7 @@ pub struct StructCfg {
     pub depth: u32,
     pub halts: bool,
     pub tags_only: bool,
+    pub child: bool,
 }
 
 impl Default for StructCfg {
@@ -169,6 +180,7 @@ impl Default for StructCfg {
             depth: 3,
             halts: true,
             tags_only: false,
+            child: false,
         }
     }
 }
@@ -177,7 +189,7 @@ fn leaf_block(cfg: StructCfg) -> BoxedStrategy<Vec<MOp>> {
     let snip = if cfg.tags_only {
         word().prop_map(|w| vec![p(w)]).boxed()
     } else {
-        snippet_plus1()
+        snippet_plus1_in(cfg.child)
     };
     (proptest::collection::vec((snip, any::<bool>()), 1..4))
         .prop_map(|parts| {
@@ -274,18 +286,19 @@ pub fn compute_block(cfg: StructCfg) -> impl Strategy<Value = Vec<MOp>> {
     let child_cfg = StructCfg {
         compute: false,
         depth: cfg.depth.min(2),
+        child: true,
         ..cfg
     };
     let piece = prop_oneof![
         // allocate (i mod k) words and store the index in them
-        3 => (1i64..4).prop_map(|k| vec![DUP, p(k), MOD, ALOC, POP]),
+        6 => (2i64..5).prop_map(|k| vec![DUP, p(k), MOD, ALOC, POP]),
         // store a function of i in fresh memory: [i] -> [i, a] -> [i, a, i|w] -> [i, i|w, a] -> STO -> [i]
         3 => (word()).prop_map(|w| vec![p(1), ALOC, p(1), DUPF, p(w % 1000), BOR, SWAP, STO]),
         // read parent memory
         2 => (0..MEM_BASE).prop_map(|a| vec![p(a), LODP, POP]),
         2 => (0..MEM_BASE - 4, 0i64..4).prop_map(|(a, n)| vec![p(a), p(n), LODPR, p(n), DROP]),
         // index dependent skip of a block
-        3 => (1i64..4, 0i64..3, leaf_block(child_cfg)).prop_map(|(k, r, b)| {
+        5 => (2i64..4, 0i64..2, leaf_block(child_cfg)).prop_map(|(k, r, b)| {
             // if i mod k == r skip b
             let mut v = vec![DUP, p(k), MOD, p(r), EQ]; // [.., i, cond]
             v.extend([p(b.len() as i64 + 1), SWAP, JMPIF]);
@@ -293,9 +306,9 @@ pub fn compute_block(cfg: StructCfg) -> impl Strategy<Value = Vec<MOp>> {
             v
         }),
         // halting child for some indices
-        1 => (1i64..4, 0i64..3).prop_map(|(k, r)| vec![DUP, p(k), MOD, p(r), EQ, HLTIF]),
+        2 => (2i64..4, 0i64..2).prop_map(|(k, r)| vec![DUP, p(k), MOD, p(r), EQ, HLTIF]),
         // early compute end for some indices
-        1 => (1i64..4, 0i64..3).prop_map(|(k, r)| vec![DUP, p(k), MOD, p(r), EQ, NOT, p(2), SWAP, JMPIF, COME]),
+        2 => (2i64..4, 0i64..2).prop_map(|(k, r)| vec![DUP, p(k), MOD, p(r), EQ, NOT, p(2), SWAP, JMPIF, COME]),
         // generic block
         3 => block(child_cfg, true),
         // failing child (rare)
@@ -304,8 +317,8 @@ pub fn compute_block(cfg: StructCfg) -> impl Strategy<Value = Vec<MOp>> {
         1 => Just(vec![p(1), COM, COME]),
     ];
     (
-        prop_oneof![6 => 1i64..6, 2 => 6i64..20, 1 => -1i64..1],
-        proptest::collection::vec(piece, 0..4),
+        prop_oneof![1 => Just(1i64), 6 => 2i64..7, 2 => 7i64..20, 1 => -1i64..1],
+        proptest::collection::vec(piece, 1..5),
         prop_oneof![6 => Just(0u8), 1 => Just(1u8), 1 => Just(2u8)],
     )
         .prop_map(|(n, pieces, ending)| {
